@@ -446,8 +446,12 @@ func (opt *Option) Save(a ...string) error {
 					return fmt.Errorf(text.ErrorConvertToInt, opt.UsedAlias, e)
 				}
 				if in1 < in2 {
-					for j := in1; j <= in2; j++ {
+					// j <= in2 can never become false when in2 is the largest int
+					for j := in1; ; j++ {
 						ii = append(ii, j)
+						if j == in2 {
+							break
+						}
 					}
 				} else {
 					// TODO: Create new error description for this error.
